@@ -2,6 +2,8 @@
 # apply each seeded change to /repo, run the check(s) it targets, undo it.
 #   seeded/Cxx*      : a property-breaking change -> the check of Cxx must report a VIOLATION
 #   seeded/harmless* : a semantics-preserving refactor -> every check must stay silent
+#   seeded/outofdomain_Cxx* : a change that differs from the original only OUTSIDE the property's domain -> the check of Cxx
+#                      must stay silent (a NOTE about the out-of-domain disagreement is expected)
 cd /verif
 for d in seeded/*; do
   id=$(basename $d)
@@ -12,6 +14,7 @@ for d in seeded/*; do
   echo "== $id"
   case "$id" in
     harmless*) for i in $(seq -w 1 19); do ./check C$i 2>&1 | grep -E "^(VIOLATION|OK)" | cut -c1-120 | grep -v "^OK"; done; echo "(harmless: lines above, if any, are alarms)";;
+    outofdomain_*) p=${id#outofdomain_}; ./check ${p:0:3} 2>&1 | grep -E "^(VIOLATION|OK)" | cut -c1-160; echo "(out of domain: an OK line is expected)";;
     *) ./check ${id:0:3} 2>&1 | grep -E "^(VIOLATION|OK|NOTE)" | cut -c1-200;;
   esac
   git -C /repo checkout -q -- .
